@@ -16,7 +16,7 @@ CHECKS = {
         ref="DESIGN.md section 0.7 and 5 C01", note="Remaining premises of the whole-run theorem (run_setup): collision-freeness of the content at every piece, one file per export path, no two export paths initially hard-linked; the wf_piece side conditions are now PROVED from the layout theorems for every piece of the work list (C01_every_work_piece_good)."),
     "C02": dict(
         technique="Coq proof (candidate index complete and sound for every hash-map order; de-duplication keeps representatives; exhaustive combination search; available => Success with the segments written) + trace validation + independent availability oracle",
-        text="C02_present_means_recovered (AvailProofs.v): C02 as stated - index = exactly the registered set of the start state, each segment present in a regular file of the declared length under a scan directory or at an export location that the run cannot damage, nothing in the way => Success and in place, for every hash-map order and interleaving. C02_stably_available_means_recovered / C02_stable_availability_is_invariant (RerunProofs.v): when each witness is a file the table owns no path of, or an export image already verifying for its own entry, availability at the START is kept in every reachable state (a theorem, not a hypothesis) and the piece is recovered. C02_available_means_recovered (CompleteProofs.v + EstablishProofs.v): in a fault-free run of the whole system, under every interleaving, all of whose states keep the piece available and unobstructed, the piece's evaluation can only return Success and every non-padding segment is then in place in the export tree. C02_candidates_complete/sound, C02_witnesses_give_combination, C02_search_exhaustive, C02_available_piece_recovered: at the program level, a piece whose every segment has a readable candidate holding the torrent's bytes succeeds and writes every segment not sourced from its own export file. Tied to the code by replaying 300 (3000) generated runs against the model and by an availability oracle computed from the initial snapshot. Worlds contain symbolic links where the tool resolves them (export files linked to complete files elsewhere, scan roots given through links), candidate names that are not valid UTF-8 (incl. pairs with the same lossy rendering), directory arguments under other spellings.",
+        text="C02_built_index_is_the_registered_set (IndexBuild.v): the index that FileCache's insertion procedure (IndexModel.build_index, extracted; the validator compares the implementation's index with it on every run) builds from any listing containing every regular file under a scan directory plus the export probes IS the registered set, for every file system, table, scan set, insertion order and multiplicity. C02_present_means_recovered (AvailProofs.v): C02 as stated - index = exactly the registered set of the start state, each segment present in a regular file of the declared length under a scan directory or at an export location that the run cannot damage, nothing in the way => Success and in place, for every hash-map order and interleaving. C02_stably_available_means_recovered / C02_stable_availability_is_invariant (RerunProofs.v): when each witness is a file the table owns no path of, or an export image already verifying for its own entry, availability at the START is kept in every reachable state (a theorem, not a hypothesis) and the piece is recovered. C02_available_means_recovered (CompleteProofs.v + EstablishProofs.v): in a fault-free run of the whole system, under every interleaving, all of whose states keep the piece available and unobstructed, the piece's evaluation can only return Success and every non-padding segment is then in place in the export tree. C02_candidates_complete/sound, C02_witnesses_give_combination, C02_search_exhaustive, C02_available_piece_recovered: at the program level, a piece whose every segment has a readable candidate holding the torrent's bytes succeeds and writes every segment not sourced from its own export file. Tied to the code by replaying 300 (3000) generated runs against the model and by an availability oracle computed from the initial snapshot. Worlds contain symbolic links where the tool resolves them (export files linked to complete files elsewhere, scan roots given through links), candidate names that are not valid UTF-8 (incl. pairs with the same lossy rendering), directory arguments under other spellings.",
         ref="DESIGN.md section 5 C02", note="Statement-level hypotheses: fault-free run, the witnesses stay in place and nothing obstructs the export paths in every state of the run (avail), collision-freeness, the torrent's hash is the hash of the content; the file-system effect of the emitted operations is the FS model's (validated against real runs)."),
     "C03": dict(
         technique="Coq proof (every mutating op targets an entry's export path or its parent; table paths confined to export/<hex>/Data; open modes from Generated.v) + whole-sandbox snapshot oracle + trace validation",
@@ -76,7 +76,7 @@ CHECKS = {
         ref="DESIGN.md section 5 C10"),
     "C17": dict(
         technique="Coq proof (sorted+deduplicated torrent list depends only on the set of torrents; candidate lists represent exactly the registered inodes with the export file first for every hash-map order; exhaustive search monotone in candidates) + runs under five presentations of each world",
-        text="C17_scan_list_permuted / _repeated / _nested / _added: the scan list enters the completeness theorems only through under_of (extracted; used by the validator), which is invariant under permutation, repetition and nesting and monotone under addition; C17_presence_monotone: more files, more scan directories, more torrents keep a present segment present. C17_distinct_torrents, C17_torrent_list_presentation, C17_candidates_order_independent, C17_export_first_for_every_order, C17_more_candidates_monotone; each generated world is run as generated, permuted, with duplicates, with nested scan directories and with the export directory among the scan directories; guarantees checked on each, trees compared, every run replayed against the model.",
+        text="C17_index_independent_of_insertion_order (IndexBuild.v): two insertion sequences with the same registrations build indexes holding the same nodes (build_index = FileCache's insertion procedure, extracted and compared with the implementation's index on every run). C17_scan_list_permuted / _repeated / _nested / _added: the scan list enters the completeness theorems only through under_of (extracted; used by the validator), which is invariant under permutation, repetition and nesting and monotone under addition; C17_presence_monotone: more files, more scan directories, more torrents keep a present segment present. C17_distinct_torrents, C17_torrent_list_presentation, C17_candidates_order_independent, C17_export_first_for_every_order, C17_more_candidates_monotone; each generated world is run as generated, permuted, with duplicates, with nested scan directories and with the export directory among the scan directories; guarantees checked on each, trees compared, every run replayed against the model.",
         ref="DESIGN.md section 5 C17", note="Identical trees are demanded when no content is shared between torrents (otherwise the order of evaluation legitimately matters)."),
 }
 
